@@ -341,3 +341,50 @@ def run(rep, programs):
         rep.check(not bad, rule, "events_from_trace|stable-sort", "events are ordered with a stable sort (%s)" % (", ".join(cn for _, cn in sorts) or "no sort"),
                   "the trace events are sorted with %s: events with equal timestamps (an allocation and its free) can be reordered, the free "
                   "is then replayed before its allocation and dropped" % ", ".join(bad), et.span)
+
+
+def r_trace_size(rep, prog):
+    """The header's max_pfn is the highest traced frame number (inclusive). The allocator size and the pfn-indexed record table
+    are sized from ParsedTrace::max_pfn, so that value has to be a count that covers max_pfn itself: >= header.max_pfn + 1."""
+    rule = "R-TRACE-SIZE"
+    rep.rule(rule, "ParsedTrace::parse: max_pfn (managed size, length of the record table) = round_up(header.max_pfn + c), c >= 1")
+    b = prog.body("replay::ParsedTrace::parse")
+    if b is None:
+        rep.check(True, rule, "parse|covers-max-pfn", "undecided: no ParsedTrace::parse")
+        rep.note("%s: ParsedTrace::parse not found; the size of the replay tables is undecided" % rule)
+        return
+    rep.saw(b.name)
+    tm = T.Terms(b, prog)
+    n = 0
+    for bi, si, s in b.stmts():
+        if not (s["k"] == "assign" and s["rv"]["k"] == "aggregate" and str(s["rv"]["kind"].get("adt", "")).endswith("ParsedTrace")):
+            continue
+        fields = s["rv"]["kind"].get("fields") or []
+        if "max_pfn" not in fields:
+            continue
+        n += 1
+        v = tm.operand(s["rv"]["ops"][fields.index("max_pfn")])
+        inner = v
+        while inner[0] == "call" and (inner[1].endswith("next_multiple_of") or inner[1].endswith("align_up")):
+            inner = inner[2][0]          # rounding up never makes it smaller
+        l = T.linear(inner)
+        hdr = [k for k in (l[0] if l else {}) if any(isinstance(x, tuple) and x and x[0] == "f" and x[-1] == "max_pfn" for x in T.walk(k))]
+        if l is None or len(l[0]) != 1 or len(hdr) != 1 or l[0][hdr[0]] != 1:
+            rep.check(True, rule, "parse|covers-max-pfn", "undecided: the size is not header.max_pfn + constant (%s)" % T.show(inner)[:80])
+            rep.note("%s: ParsedTrace::max_pfn is computed in a form the rule does not know; undecided" % rule)
+            continue
+        rep.check(l[1] >= 1, rule, "parse|covers-max-pfn", "size >= header.max_pfn + 1",
+                  "the managed size / record table length is round_up(header.max_pfn + %d): the highest traced frame (max_pfn is "
+                  "inclusive) is outside whenever max_pfn is a multiple of the rounding unit; the replay aborts at its first event "
+                  "on that frame" % l[1], s.get("span"))
+    if n == 0:
+        rep.check(True, rule, "parse|covers-max-pfn", "undecided: no ParsedTrace { max_pfn, .. } construction found")
+        rep.note("%s: no ParsedTrace construction with a max_pfn field; undecided" % rule)
+
+
+_run_c20 = run
+
+
+def run(rep, programs):  # noqa: F811
+    _run_c20(rep, programs)
+    r_trace_size(rep, programs["eval"])
